@@ -39,7 +39,36 @@ def requests(ctx):
         rq.append(vcdgen.request("st", vars_, body))
         body = vcdgen.gen_body(rng, vars_, dumpall_p=0.4, nsteps=6, line_disciplined=True)
         rq.append(vcdgen.request("st", vars_, body))
+    # long recordings: variables that stay unchanged for thousands of time steps (time-index deltas of 4 095 .. 9 000 inside a
+    # block: the delta shares its word with the value bits) next to one that toggles on every step
+    for k in range(3 if quick else 12):
+        vars_, body = long_gap_body(rng, 9000 if quick else rng.choice([9000, 20000, 70000]))
+        rq.append(vcdgen.request(["st", "rd", "mt:4:prod"][k % 3], vars_, body))
     return rq
+
+
+def long_gap_body(rng, nsteps):
+    vars_ = [(b"!", "b1"), (b"%", "b1"), (b"&", "b8"), (b"'", "b1"), (b"(", "r"), (b")", "b3")]
+    out = [b"", b"#0", b"0!", b"0%", b"b00000000 &", b"x'", b"r0.5 (", b"b0z1 )"]
+    # change points of the quiet variables: right around 4096 = 2^12 steps after their previous change, and later ones
+    quiet = {b"%": [4094, 4095, 4096, 4097, 8193, 8200], b"'": [4096, 8192 + 4096 - 1], b"&": [4097, 4098, 8500],
+             b"(": [4096 + rng.randint(0, 3)], b")": [4095 + rng.randint(0, 2), 8700]}
+    flip = {i: 0 for i in quiet}
+    for t in range(1, nsteps):
+        out.append(b"#%d" % t)
+        out.append(b"%d!" % (t & 1))
+        for i, pts in quiet.items():
+            if t in pts:
+                flip[i] += 1
+                if i == b"&":
+                    out.append(b"b%s &" % format((flip[i] * 37) % 256, "08b").encode())
+                elif i == b"(":
+                    out.append(b"r%d.25 (" % flip[i])
+                elif i == b")":
+                    out.append(b"b%s )" % rng.choice([b"101", b"x1z", b"1"]))
+                else:
+                    out.append(b"%d" % (flip[i] & 1) + i)
+    return vars_, b"\n".join(out) + b"\n"
 
 
 def nontrivial(rq, reply):
